@@ -623,7 +623,7 @@ int cmd_run(const Args &a) {
                     munmap((void *)shm, sizeof(Shm));
                     return 0;
                 }
-                if (armed == C19 && hard && single_caller_single_object(p)) {
+                if (armed == C19 && hard && r1.cls != "sanitizer-write" && single_caller_single_object(p)) {
                     // the failure needs neither a second caller nor an unrelated earlier call: it is a sequential defect of one
                     // API family (some other property's business), not a reentrancy violation
                     printf("OBSERVATION (not a violation of C19: reproduces with one caller on one object, no interleaving): run %lld: %s %s\n", (long long)vi, r1.cls.c_str(), r1.detail.c_str());
@@ -705,6 +705,8 @@ static void asan_report_cb(const char *text) {
         const char *e = strstr(text, "ERROR: AddressSanitizer");
         if (!e) e = text;
         size_t n = 0; while (e[n] && e[n] != '\n' && n < sizeof(g_asan_first) - 1) n++;
+        const char *cut = strstr(e, " on address");   // addresses differ from process to process: never logged
+        if (cut && (size_t)(cut - e) < n) n = (size_t)(cut - e);
         memcpy(g_asan_first, e, n); g_asan_first[n] = 0;
     }
 }
